@@ -186,6 +186,7 @@ class Env:
         self.now = None
         self.clock_reads = 0
         self.add(time.time, self.time, "time.time")
+        self.add(time.monotonic, self.time, "time.monotonic")
         self.add(timeit.default_timer, lambda a, k: 0.0, "mysensors.task.timer")
         import asyncio
         import threading
@@ -198,6 +199,11 @@ class Env:
         self.async_sleeps = []
         self.cancel_sleep_at = None  # index of the asyncio.sleep call that gets cancelled
         self.add(asyncio.get_running_loop, lambda a, k: self.loop, "asyncio.get_running_loop")
+        self.add(asyncio.get_event_loop, lambda a, k: self.loop, "asyncio.get_event_loop")
+        self.add(asyncio.create_task, lambda a, k: self.loop.create_task(a[0]),
+                 "asyncio.create_task")
+        self.add(asyncio.ensure_future, lambda a, k: self.loop.create_task(a[0]),
+                 "asyncio.ensure_future")
         self.add(asyncio.sleep, self.async_sleep, "asyncio.sleep")
         self.add(asyncio.wait_for, lambda a, k: a[0], "asyncio.wait_for")
         try:
